@@ -526,6 +526,7 @@ package lang
 //@   loop 4 invariant protocol: evInv(e, old(e.stackTop))
 //@   loop 5 invariant protocol: evInv(e, old(e.stackTop)) && fresh(keys)
 //@   loop 6 invariant protocol: evInv(e, old(e.stackTop))
+//@   loop 6 invariant[C07,C10] object-keys-visited-in-sorted-order: forall i int, j int :: 0 <= i && i < j && j < len(keys) ==> scmpS(keys[i], keys[j]) <= 0
 //@   loop 7 invariant protocol: evInv(e, old(e.stackTop))
 
 //@ func Evaluator.evalExprList [C01,C08,C09,C11]
@@ -821,11 +822,12 @@ package lang
 // lemma L1 (DESIGN.md section 5).  next and exit are proved consumed.
 //@ spec func isScopedFlow(err error) bool = err == errBreak || err == errContinue || err == errReturn
 //@ spec func drvOK(e *Evaluator) bool = e != nil && e.lexer != nil && frameOK(e.stackTop)
-//@ func EvalProgram [C01,C02,C03,C11]
+//@ func EvalProgram [C01,C02,C03,C11,C14]
 //@   requires !$faulted
 //@   updates $faulted, $out
 //@   ensures[C01] errkind: err == nil || isSyn(err) || isRT(err) || isJsonErr(err) || isScopedFlow(err)
 //@   ensures[C01] next-and-exit-consumed: err != errNext && err != errExit
+//@   ensures[C11] success-means-no-fault: err == nil ==> !$faulted
 //@   init $pendingFile = false
 //@   init $mark = 0
 //@   after encoding/json.NewDecoder: $pendingFile = true
@@ -841,7 +843,9 @@ package lang
 //@   loop 1 invariant ready: drvOK(&ev) && !$faulted && $mark <= $alloc && !$pendingFile
 //@   loop 2 invariant ready: drvOK(&ev) && !$faulted && $mark <= $alloc && $pendingFile
 //@   loop 3 invariant ready: drvOK(&ev) && !$faulted && $mark <= $alloc
+//@   loop 3 invariant[C02,C14] one-root-per-selector-so-far: len(rootCells) == rangeindex + 1
 //@   loop 4 invariant ready: drvOK(&ev) && !$faulted && $mark <= $alloc
+//@   loop 4 invariant[C02,C14] roots-of-this-value-only: len(rootCells) == (len(rootSelectors) > 0 ? len(rootSelectors) : 1)
 //@   loop 5 invariant ready: drvOK(&ev) && !$faulted && $mark <= $alloc
 //@   loop 6 invariant ready: drvOK(&ev) && !$faulted && $mark <= $alloc
 //@   loop 7 invariant[C03] ready-and-all-input-consumed: drvOK(&ev) && !$faulted && !$pendingFile && $mark <= $alloc
@@ -1265,3 +1269,11 @@ package lang
 //@   loop 1 invariant building-list: !$faulted && fresh(array) && array != nil && len(array) == rangeindex + 1
 //@   loop 2 invariant collecting-keys: !$faulted && obj != nil && fresh(obj)
 //@   loop 3 invariant[C10] building-map-in-sorted-key-order: !$faulted && obj != nil && fresh(obj) && (forall i int, j int :: 0 <= i && i < j && j < len(keys) ==> scmpS(keys[i], keys[j]) <= 0)
+
+// ---------------------------------------------------------------- -o serialisation (C04, C01)
+
+//@ func Evaluator.GetRootJson [C01,C04]
+//@   requires e != nil && !$faulted
+//@   updates $faulted
+//@   modifies nothing
+//@   ensures[C04] conversion-errors-are-returned: $faulted ==> err != nil
